@@ -142,11 +142,13 @@ Print Assumptions C08_effects_only_from_handler.
 
 (* ------------------------------------------------------------------ *)
 (* From the request BODY (ServerBytes.v). *)
-From Ucanto Require Import Ipld Cbor Formats MessageFormat Car MessageBytes TokenBytes TokenView ServerBytes.
+From Ucanto Require Import Ipld Cbor Formats MessageFormat Car MessageBytes TokenBytes TokenView LinkIntegrity ServerBytes.
 
 (* A body written by the library's encoders — the blocks of some tokens followed by the root block
    of a message m, distinct CIDs, every block matching its CID — is served as Server.execute on
-   exactly those blocks: the execute list of m, every block visible, the token store U_of blocks.
+   exactly those blocks: the execute list of m, every block visible, the token store U_of blocks
+   (every block read as delegation.Data() reads it: with its fields when its CID is the dag-cbor /
+   sha2-256 CID of its bytes, as the token without fields otherwise).
    (`view`: how a block is read as a token, see C08_bytes_world; extb: the blocks the proof resolver
    can supply beyond those of the request.) *)
 Theorem C08_bytes_refines :
@@ -158,16 +160,18 @@ Theorem C08_bytes_refines :
     roots_ok 1 [root] -> Forall (block_ok mh_digest) blocks -> NoDup (map fst blocks) ->
     msg_root_ok mh_digest root (message_bytes m) ->
     serve_bytes mh_digest hdr_oracle fuel srv extb view (car_encode [root] blocks) =
-    SDone (execute (U_of extb view blocks) fuel srv (vis_of blocks) (exec_of (canon_msg m))).
+    SDone (execute (U_of mh_digest extb view blocks) fuel srv (vis_of blocks) (exec_of (canon_msg m))).
 Proof. exact serve_bytes_refines. Qed.
 Print Assumptions C08_bytes_refines.
 
 (* ... and when blocks are read as TokenView.view_block reads them, that token store is the abstract
    world, pointwise: the view of each token (in the canonical form the decoder returns) under the
-   number of its CID, the empty token for the message's own root block, nothing for every link that
-   is neither a block of the request nor one of the resolver's *)
+   number of its CID WHEN THAT CID IS cid_of OF THE TOKEN'S BYTES, the empty token for a token filed
+   under any other CID, the empty token for the message's own root block, nothing for every link
+   that is neither a block of the request nor one of the resolver's *)
 Theorem C08_bytes_world :
-  forall (keys : list N) (valid : N -> bstr -> bstr -> bool) (alg_of : N -> bstr)
+  forall (mh_digest : N -> N -> bstr -> option bstr)
+         (keys : list N) (valid : N -> bstr -> bstr -> bool) (alg_of : N -> bstr)
          (extb : list (bstr * bstr)) (view : bstr -> token),
     (forall b, view b = view_block lid keys valid alg_of b) ->
   forall (m : amsg) (root : bstr) (toks : list (bstr * utoken)),
@@ -176,19 +180,45 @@ Theorem C08_bytes_world :
     NoDup (map fst blocks) ->
     (forall c t, In (c, t) toks ->
        wf_ipld (token_ipld t) = true /\ in_budget (token_ipld t) = true /\ token_typed_ok t = true /\ u_fct t <> Some []) ->
-    (forall c t, In (c, t) toks ->
-       U_of extb view blocks (lid c) = Some (view_token lid keys valid alg_of (canon_token t))) /\
-    U_of extb view blocks (lid root) = Some empty_token /\
-    (forall l, ~ In l (vis_of (blocks ++ extb)) -> U_of extb view blocks l = None).
+    (forall c t, In (c, t) toks -> cid_of mh_digest (token_bytes t) = Some c ->
+       U_of mh_digest extb view blocks (lid c) = Some (view_token lid keys valid alg_of (canon_token t))) /\
+    (forall c t, In (c, t) toks -> cid_of mh_digest (token_bytes t) <> Some c ->
+       U_of mh_digest extb view blocks (lid c) = Some empty_token) /\
+    U_of mh_digest extb view blocks (lid root) = Some empty_token /\
+    (forall l, ~ In l (vis_of (blocks ++ extb)) -> U_of mh_digest extb view blocks l = None).
 Proof. exact serve_bytes_world. Qed.
 Print Assumptions C08_bytes_world.
 
+(* The library's encoder (block.Encode with the dag-cbor codec and the sha2-256 hasher: enc_toks)
+   files every token under cid_of of its bytes, so for a request it wrote "the blocks are bound" is
+   proved, not assumed: every token is in the store with its fields *)
+Theorem C08_bytes_world_encoded :
+  forall (mh_digest : N -> N -> bstr -> option bstr)
+         (keys : list N) (valid : N -> bstr -> bstr -> bool) (alg_of : N -> bstr)
+         (extb : list (bstr * bstr)) (view : bstr -> token),
+    (forall b, view b = view_block lid keys valid alg_of b) ->
+  forall (m : amsg) (root : bstr) (ts : list utoken) (toks : list (bstr * utoken)),
+    enc_toks mh_digest ts = Some toks ->
+    wf_ipld (message_ipld m) = true -> in_budget (message_ipld m) = true ->
+    let blocks := request_blocks toks root m in
+    NoDup (map fst blocks) ->
+    (forall t, In t ts ->
+       wf_ipld (token_ipld t) = true /\ in_budget (token_ipld t) = true /\ token_typed_ok t = true /\ u_fct t <> Some []) ->
+    (forall c t, In (c, t) toks ->
+       U_of mh_digest extb view blocks (lid c) = Some (view_token lid keys valid alg_of (canon_token t))) /\
+    U_of mh_digest extb view blocks (lid root) = Some empty_token /\
+    (forall l, ~ In l (vis_of (blocks ++ extb)) -> U_of mh_digest extb view blocks l = None).
+Proof. exact serve_bytes_world_encoded. Qed.
+Print Assumptions C08_bytes_world_encoded.
+
 (* ONE theorem from bytes to "a handler ran only for a complete valid chain": whatever the body,
    if serving it produced a report, every handler call belongs to an entry of the decoded message's
-   execute list whose block is in the request's block table, decodes (typed decoding) to a UCAN
+   execute list whose block is in the request's block table UNDER THE dag-cbor / sha2-256 CID OF ITS
+   BYTES (cid_of data = Some cid), decodes (typed decoding) to a UCAN
    with exactly one capability naming the handler that was called, and carries an authorization
    satisfying ValidatorSpec.P — also in the form P_sg whose signature clauses speak about the signed
-   bytes of blocks of this very body or of the resolver (C01_sound_bytes). *)
+   bytes of blocks of this very body or of the resolver (C01_sound_bytes), and in the form whose
+   clause sig_ok_bound adds that each such block is bound to the link of its delegation. *)
 Theorem C08_bytes_calls_have_valid_chains :
   forall (mh_digest : N -> N -> bstr -> option bstr) (hdr_oracle : bstr -> option (list bstr * N))
          (keys : list N) (valid : N -> bstr -> bstr -> bool) (alg_of : N -> bstr) (fuel : nat) (srv : server)
@@ -201,12 +231,48 @@ Theorem C08_bytes_calls_have_valid_chains :
     forall k, In k calls ->
     exists cid data ut h a c,
       In cid (invocations_bytes (d_msg d)) /\ tbl_get (d_store d) cid = Some data /\
+      cid_of mh_digest data = Some cid /\
       token_decode_typed data = Some ut /\
       map (view_cap lid) (u_att ut) = [c] /\ find_handler (r_can c) (s_service srv) = Some h /\
       k = (h_can h, node_cap a) /\
-      let U := U_of extb view (blocks_of d) in
+      let U := U_of mh_digest extb view (blocks_of d) in
       let inv := mkDlg (lid cid) (vis_of (blocks_of d)) in
       P U (s_ctx srv) fuel (h_desc h) [inv] a /\
-      P_sg U (s_ctx srv) (sig_ok_bytes (B_of (blocks_of d ++ extb)) lid keys valid alg_of) fuel (h_desc h) [inv] a.
+      P_sg U (s_ctx srv) (sig_ok_bytes (B_of (blocks_of d ++ extb)) lid keys valid alg_of) fuel (h_desc h) [inv] a /\
+      P_sg U (s_ctx srv) (sig_ok_bound mh_digest keys valid alg_of (blocks_of d ++ extb)) fuel (h_desc h) [inv] a.
 Proof. exact serve_bytes_calls_have_valid_chains. Qed.
 Print Assumptions C08_bytes_calls_have_valid_chains.
+
+(* An invocation that travels under a CID other than the dag-cbor / sha2-256 CIDv1 of its bytes
+   (raw codec, CIDv0, dag-json, another hash function — the CAR reader accepts them all) never makes
+   a handler run: whatever its bytes say and whatever else the request carries, server.Run answers
+   it with the InvocationCapabilityError receipt and calls nothing, and that is the receipt filed
+   under its link in the report of the request. *)
+Theorem C08_bytes_relabelled_runs_nothing :
+  forall (mh_digest : N -> N -> bstr -> option bstr) (hdr_oracle : bstr -> option (list bstr * N))
+         (keys : list N) (valid : N -> bstr -> bstr -> bool) (alg_of : N -> bstr) (fuel : nat) (srv : server)
+         (extb : list (bstr * bstr)) (view : bstr -> token),
+    (forall b, view b = view_block lid keys valid alg_of b) ->
+  forall (body : bstr) (d : decoded) (cid data : bstr),
+    decode_message mh_digest hdr_oracle body = Some d ->
+    In (cid, data) (blocks_of d) -> cid_of mh_digest data <> Some cid ->
+    let rc := mkRcpt (lid cid) (s_id srv) (RErr e_capability) no_fx in
+    (forall vis, run (U_of mh_digest extb view (blocks_of d)) fuel srv (mkDlg (lid cid) vis) = Some (rc, [])) /\
+    (forall rep calls, serve_bytes mh_digest hdr_oracle fuel srv extb view body = SDone (ExecOk rep calls) ->
+       In cid (invocations_bytes (d_msg d)) -> rget (lid cid) rep = Some rc).
+Proof. exact serve_bytes_relabelled_runs_nothing. Qed.
+Print Assumptions C08_bytes_relabelled_runs_nothing.
+
+(* ... and a request all of whose execute-list entries travel that way makes no handler call *)
+Theorem C08_bytes_all_relabelled_no_calls :
+  forall (mh_digest : N -> N -> bstr -> option bstr) (hdr_oracle : bstr -> option (list bstr * N))
+         (keys : list N) (valid : N -> bstr -> bstr -> bool) (alg_of : N -> bstr) (fuel : nat) (srv : server)
+         (extb : list (bstr * bstr)) (view : bstr -> token),
+    (forall b, view b = view_block lid keys valid alg_of b) ->
+  forall (body : bstr) (d : decoded) (rep : report) (calls : list call),
+    decode_message mh_digest hdr_oracle body = Some d ->
+    (forall cid, In cid (invocations_bytes (d_msg d)) ->
+       exists data, In (cid, data) (blocks_of d) /\ cid_of mh_digest data <> Some cid) ->
+    serve_bytes mh_digest hdr_oracle fuel srv extb view body = SDone (ExecOk rep calls) -> calls = [].
+Proof. exact serve_bytes_all_relabelled_no_calls. Qed.
+Print Assumptions C08_bytes_all_relabelled_no_calls.
